@@ -15,6 +15,7 @@ import (
 
 	"github.com/virus-evolution/gofasta/pkg/encoding"
 	"github.com/virus-evolution/gofasta/pkg/fastaio"
+	"github.com/virus-evolution/gofasta/pkg/vhook"
 )
 
 // snpLine is a struct for one fasta record's SNPs
@@ -47,6 +48,7 @@ func getSNPs(refSeq []byte, cFR chan fastaio.EncodedFastaRecord, cSNPs chan snpL
 			}
 		}
 		SL.snps = SNPs
+		vhook.Jitter("snps.getSNPs", FR.Idx)
 		cSNPs <- SL
 	}
 
